@@ -171,7 +171,7 @@ PROPS = {
         "trust": [], "assumptions": [],
     },
     "C06": {
-        "subs": [dict(sub("C06", "run_C06", "spec_C06", W_IMPORTS + ["Run.C06"], 160, 1600), proj=proj_c06)],
+        "subs": [dict(sub("C06", "run_C06", "spec_C06", W_IMPORTS + ["Run.C06"], 160, 1600), proj=proj_c06, self_spec=False)],
         "run_modules": ["C06"],
         "rule": "two thirds: flat ontologies (root + N leaves, N in 1..70, around the 170-entry factorial table (160-185) and above it up to 360 "
                 "(thorough 900)) with groups of records sharing K and carrying k = kmin, kmin+1, ..., kmax (the boundary n + K > N over-weighted), "
